@@ -445,8 +445,8 @@ Expected model_call(const World &w, const ExecOp &op, CallCtx &c) {
     const std::string &o = cfg.output;
     auto framed_nl = [&]() { for (auto &t : x.msg.texts) x.records.push_back(t + "\n"); };
     if (o == "noop") { x.log = false; x.sink = "none"; x.why = "noop output"; }
-    else if (o == "stdout") { x.sink = "stdout"; framed_nl(); }
-    else if (o == "stderr") { x.sink = "stderr"; framed_nl(); }
+    else if (o == "stdout") { x.sink = "stdout"; framed_nl(); if (w.stdout_kind == 3) x.sink_usable = false; }   // descriptor closed: nowhere to write to
+    else if (o == "stderr") { x.sink = "stderr"; framed_nl(); if (w.stdout_kind == 3) x.sink_usable = false; }
     else if (o == "devnull") { x.sink = "null"; framed_nl(); x.sink_usable = file_sink_usable(w, "/dev/null"); }
     else if (o == "devtty") { x.sink = "tty"; framed_nl(); x.sink_usable = file_sink_usable(w, "/dev/tty"); }
     else if (o == "file") {
